@@ -217,6 +217,7 @@ pub fn build<'a>(ch: &'a mut Chooser, cfg: &RunCfg) -> Sim<'a> {
         extra_keys,
         c16_tainted: false,
         stale_watch: None,
+        orphan_result: None,
     };
     for i in 0..sim.nodes.len() {
         sim.start_node(i);
